@@ -525,6 +525,10 @@ class Interp(Analyzer):
                         bl_ = BitView(self, st).sym_bits(s_, WIDTH[ty_], 0)
                         if all(x_ in (0, 1) for x_ in bl_):
                             return V_const(sum(x_ << k_ for k_, x_ in enumerate(bl_)))
+                        from .bits import lin_of_bits
+                        ex_ = lin_of_bits(st, bl_)
+                        if ex_ is not None:
+                            return ('int', ex_)
                         hi_ = sum((0 if x_ == 0 else 1) << k_ for k_, x_ in enumerate(bl_))
                         lo_ = sum((1 if x_ == 1 else 0) << k_ for k_, x_ in enumerate(bl_))
                         if st.hi.get(s_) is None or st.hi[s_] > hi_:
@@ -667,6 +671,18 @@ class Interp(Analyzer):
                 return ('int', self.fresh(st, ty, 0, min(his), 'and'))
             return ('int', self.fresh(st, ty))
         if base in ('BitOr', 'BitXor'):
+            # x | y = x + y when x is a multiple of 2^k and 0 <= y < 2^k (bit supports are disjoint)
+            for x_, y_ in ((la, lb_), (lb_, la)):
+                nums = [abs(c_) for c_ in x_.co.values()] + ([abs(x_.k)] if x_.k else [])
+                if not nums:
+                    continue
+                p2 = min((n_ & -n_) for n_ in nums)
+                yl, yu, xl = st.lb(y_), st.ub(y_), st.lb(x_)
+                if p2 > 1 and yl is not None and yl >= 0 and yu is not None and yu < p2 and xl is not None and xl >= 0:
+                    r_ = x_ + y_
+                    ru = st.ub(r_)
+                    if ru is not None and ru <= thi:
+                        return ('int', r_)
             va, vb = st.values(la), st.values(lb_)
             if va is not None and vb is not None and len(va) * len(vb) <= 256:
                 f = (lambda x, y: x | y) if base == 'BitOr' else (lambda x, y: x ^ y)
@@ -758,6 +774,11 @@ class Interp(Analyzer):
         if va is None:
             r_ = self.fresh(st, to_ty)
             self.bitdef[r_.single()[0]] = ('cast', lin, from_ty, to_ty)
+            if to_ty in ('u8', 'u16', 'u32'):
+                from .bits import BitView, WIDTH, lin_of_bits
+                ex_ = lin_of_bits(st, BitView(self, st).sym_bits(r_.single()[0], WIDTH[to_ty], 0))
+                if ex_ is not None:
+                    return ('int', ex_)
             return ('int', r_)
         if va is not None:
             bits = {'u8': 8, 'u16': 16, 'u32': 32, 'u64': 64, 'usize': 64, 'u128': 128, 'i8': 8, 'i16': 16, 'i32': 32, 'i64': 64, 'isize': 64, 'i128': 128}[to_ty]
